@@ -493,6 +493,18 @@ pub fn exec_replicas(ctx: &mut Ctx, s: &Scenario) -> Outcome {
                 if prop == "C03" {
                     check_ic_invariants(&mut out, prop, &what, &got);
                 }
+                if prop == "C19" && spec.has_defaults() {
+                    // reach probes for the classification shapes
+                    if got.terms.iter().any(|t| t.is_modifier && t.categories.len() >= 2) {
+                        ctx.counters.add("probe.term_below_modifier_and_another_category", 1);
+                    }
+                    if got.categories.iter().any(|c| got.terms.iter().any(|t| t.id == *c && t.categories.len() >= 2)) {
+                        ctx.counters.add("probe.category_below_another_category", 1);
+                    }
+                    if !pf.isa.contains(&(118, 1)) {
+                        ctx.counters.add("probe.pheno_root_not_a_child_of_root", 1);
+                    }
+                }
                 if prop == "C10" {
                     crate::props::c10::check_lookups(ctx, &mut out, &what, o, &pf, &mut r, s.mode == "full-sweep" && i == 0);
                 }
